@@ -885,18 +885,14 @@ Definition forest_20 : forest := [("d0", cls_T20, None); ("d1", cls_In, None)].
 Definition cls_T21 : dcls := ("T21", [FLeaf "y" TInt (VInt 5) false; FNest "o" true "In" (snd cls_In) DNone]).
 Definition forest_21 : forest := [("d0", cls_T21, None); ("d1", cls_T21, None)].
 
-Lemma witness_3 : wf_forest forest_3 = true /\ api_ok cfg_auto forest_3 = true
-  /\ sp_parse_empty_gen cfg_auto forest_3 = Ok [("d0", VD "T3" [("y", VL (VInt 5)); ("o", VL VNone)])]
-  /\ sp_parse_empty_gen cfg_parse forest_3 = Ok [("d0", VD "T3" [("y", VL (VInt 5)); ("o", VL VNone)])]
-  /\ ~ meets_C01 forest_3 (sp_parse_empty_gen cfg_auto forest_3).
-Proof. vm_compute. repeat split; try reflexivity. intros H. discriminate H. Qed.
-
-Lemma witness_4 : wf_forest forest_4 = true /\ api_ok cfg_merge forest_4 = true
-  /\ sp_parse_empty_gen cfg_merge forest_4
-     = Ok [("d0", VD "M4" [("xs", VL (VInt 1))]); ("d1", VD "M4" [("xs", VL (VInt 2))])]
-  /\ parse_merge_gen (option_strings (p_cfg cfg_merge)) forest_4 = sp_parse_empty_gen cfg_merge forest_4
-  /\ ~ meets_C01 forest_4 (sp_parse_empty_gen cfg_merge forest_4).
-Proof. vm_compute. repeat split; try reflexivity. intros H. discriminate H. Qed.
+(* #3 (Optional member with a default instance came back None) and #4 (a list default dealt out element-wise under ALWAYS_MERGE)
+   were repaired in the repository; their shrunk inputs stay in corpus/C01 and are replayed first in every run.  forest_3 and
+   forest_4 now satisfy the statement: *)
+Lemma repaired_3_4 :
+  meets_C01 forest_3 (sp_parse_empty_gen cfg_auto forest_3) /\ meets_C01 forest_3 (sp_parse_empty_gen cfg_parse forest_3)
+  /\ meets_C01 forest_4 (sp_parse_empty_gen cfg_merge forest_4)
+  /\ parse_merge_gen (option_strings (p_cfg cfg_merge)) forest_4 = Ok (spec_C01 forest_4).
+Proof. vm_compute. repeat split; reflexivity. Qed.
 
 Lemma witness_19 : wf_forest forest_19 = true /\ api_ok cfg_merge forest_19 = true
   /\ sp_parse_empty_gen cfg_merge forest_19
@@ -919,17 +915,15 @@ Proof. vm_compute. repeat split; try reflexivity. intros H. discriminate H. Qed.
 Definition full_statement : Prop :=
   forall c f, wf_forest f = true -> api_ok c f = true -> meets_C01 f (sp_parse_empty_gen c f).
 
-(* refuted by #19, a finding that stays after #3 and #4 are repaired *)
+(* refuted by #19 (a known finding) *)
 Theorem empty_defaults_refuted : ~ full_statement.
 Proof.
   intros F. destruct witness_19 as [W [A [_ N]]]. exact (N (F cfg_merge forest_19 W A)).
 Qed.
-Theorem refuted_by_optional_member_default :
-  exists c f, wf_forest f = true /\ api_ok c f = true /\ p_mode c = MPlain CRAuto /\ ~ meets_C01 f (sp_parse_empty_gen c f).
-Proof. exists cfg_auto, forest_3. destruct witness_3 as [W [A [_ [_ N]]]]. auto. Qed.
-Theorem refuted_by_dealt_list_default :
-  exists c f, wf_forest f = true /\ api_ok c f = true /\ ~ meets_C01 f (sp_parse_empty_gen c f).
-Proof. exists cfg_merge, forest_4. destruct witness_4 as [W [A [_ [_ N]]]]. auto. Qed.
+(* NONE / EXPLICIT / AUTO: the full-strength statement, no side condition (the regenerated guard is the repaired one) *)
+Theorem plain_full : forall c f m,
+  p_mode c = MPlain m -> wf_forest f = true -> api_ok c f = true -> meets_C01 f (sp_parse_empty_gen c f).
+Proof. exact (plain_full_if_guard_repaired eq_refl). Qed.
 Theorem refuted_by_partial_default_instances :
   exists c f, wf_forest f = true /\ api_ok c f = true /\ ~ meets_C01 f (sp_parse_empty_gen c f).
 Proof. exists cfg_merge, forest_19. destruct witness_19 as [W [A [_ N]]]. auto. Qed.
